@@ -174,7 +174,7 @@ STOPS_NOTE = (" The shipped stop conditions (gsc.py: RootStopped, AllStopped, Si
 
 
 def install(g, pid, *, text, note, technique, quick, thorough, mons=None, forces=None, nontrivial=None, rule="", extra_checks=None,
-            front_ends=(), explanation="", assumptions=(), machine_replay=True, hist_replay=False):
+            front_ends=(), explanation="", assumptions=(), machine_replay=True, hist_replay=False, front_end_filter=None, driver_text=True):
     """fills a property module's namespace with run / replay / MANIFEST for a whole-run property"""
     def run(ctx):
         res = run_whole(ctx, pid, ctx.n(quick, thorough), mons=mons or [pid], forces=forces, nontrivial=nontrivial, rule=rule, machine_replay=machine_replay, hist_replay=hist_replay)
@@ -205,6 +205,8 @@ def install(g, pid, *, text, note, technique, quick, thorough, mons=None, forces
         return replay_whole(ctx, data, (mons or [pid])[0] if pid not in (mons or [pid]) else pid)
     g["run"], g["replay"] = run, replay
     g["FRONT_ENDS"] = list(front_ends)
+    if front_end_filter:
+        g["FRONT_END_FILTER"] = dict(front_end_filter)
     g["EXPLANATION"] = explanation or text
     g["ASSUMPTIONS"] = list(assumptions)
     FILTERS_NOTE = (" DemeLimit and LevelLimit are translated from pyhms/sprout/sprout_filters.py on every check (coq/Gen/GenFilters.v, hv/translate/filters_py.py) and proved equal, on every "
@@ -230,9 +232,9 @@ def install(g, pid, *, text, note, technique, quick, thorough, mons=None, forces
                      "invocations (Proofs/GenEquivMinimize.v).")
     ORDER_NOTE = (" Individual's ordering (@total_ordering over __lt__ = problem.worse_than(fitnesses), __eq__ = problem.equivalent(fitnesses)) is translated on every check "
                   "(coq/Gen/GenOrder.v) and the derived `>` proved to be 'strictly better in the problem's direction' on non-NaN doubles (Proofs/GenEquivOrder.v).")
-    g["MANIFEST"] = {"text": text + (" The same for the run() translated from the current sources (code_moment theorems)." if "driver" in front_ends and pid != "C11" else ""),
-                     "note": note + " " + COMMON_NOTE + (DRIVER_NOTE if "driver" in front_ends else "") + (STOPS_NOTE if "stops" in front_ends else "") + (ACCESSORS_NOTE if "accessors" in front_ends else "") + (POPOPS_NOTE if "popops" in front_ends else "") + (OPS_NOTE if "ops" in front_ends else "") + (FILTERS_NOTE if ("levellimit" in front_ends or "demelimit" in front_ends) else "") + (CTOR_NOTE if "ctor" in front_ends else "") + (MINIMIZE_NOTE if "minimize" in front_ends else "") + (ORDER_NOTE if "order" in front_ends else ""),
-                     "technique": technique + ("; python-ast -> Gallina translation of tree.py and the deme run_metaepoch loops with a machine-checked simulation by the small-step machine" if "driver" in front_ends and pid != "C11" else
+    g["MANIFEST"] = {"text": text + (" The same for the run() translated from the current sources (code_moment theorems)." if "driver" in front_ends and pid != "C11" and driver_text else ""),
+                     "note": note + " " + COMMON_NOTE + (DRIVER_NOTE if "driver" in front_ends and driver_text else "") + (STOPS_NOTE if "stops" in front_ends else "") + (ACCESSORS_NOTE if "accessors" in front_ends else "") + (POPOPS_NOTE if "popops" in front_ends else "") + (OPS_NOTE if "ops" in front_ends else "") + (FILTERS_NOTE if ("levellimit" in front_ends or "demelimit" in front_ends) else "") + (CTOR_NOTE if "ctor" in front_ends else "") + (MINIMIZE_NOTE if "minimize" in front_ends else "") + (ORDER_NOTE if "order" in front_ends else ""),
+                     "technique": technique + ("; python-ast -> Gallina translation of tree.py and the deme run_metaepoch loops with a machine-checked simulation by the small-step machine" if "driver" in front_ends and pid != "C11" and driver_text else
                                                "; static population-freshness analysis in the driver translator" if pid == "C11" else "")}
 
 HIST_NOTE = ("History theorems are about the hand-written executable history machine (coq/Model/Hist.v), which REBUILDS every generation from the sources named by the events "
